@@ -420,6 +420,9 @@ def part_forms(ctx, ref):
 def part_programs(ctx, ref):
     """PROP: feature programs (closures, classes, destructuring, generators, exceptions, protocols)"""
     progs = [STRICT + p for p in corpus.feature_programs(ctx.rng, ctx.tier)]
+    # random control flow: break / continue / labels / switch fall-through / return and throw through try-catch-finally
+    ctl = c01_compile.control_programs(ctx.rng, ctx.tier)
+    progs += [STRICT + corpus.PRELUDE + "try { " + b + " } catch (e) { out('uncaught', e && e.name, e) }" + corpus.EPILOGUE for b in ctl]
     got = run_tsrun(progs)
     refv = ref.programs(progs)
     miss = 0
@@ -440,7 +443,7 @@ def part_programs(ctx, ref):
         for x, y in diffs:
             ctx.prop_fail("program: tsrun differs from the reference engine", {"expr": body[:4000], "tsrun": x[:800], "ref": y[:800]})
     ctx.cov["distinct_nontrivial"] += len(set(got))
-    ctx.notes.append("programs: %d feature programs (%d without reference)" % (len(progs), miss))
+    ctx.notes.append("programs: %d feature programs and %d generated control-flow programs (%d without reference)" % (len(progs) - len(ctl), len(ctl), miss))
 
 
 # ---------------------------------------------------------------- operator grammar (M-Pratt)
